@@ -5,6 +5,7 @@ CONSTANTS
   Schema = "AB"
   MaxDepth = 2
   Rich = FALSE
+  EmitMin = 0
   Emit = TRUE
 INVARIANT ExecMatches
 INVARIANT DenMatches
